@@ -4,7 +4,9 @@ use image::{DynamicImage, RgbaImage};
 use wow_blp::convert::{
     blp_to_image, image_to_blp, AlphaBits, Blp2Format, BlpOldFormat, BlpTarget, DxtAlgorithm, FilterType,
 };
-use wow_blp::encode::encode_blp0;
+use wow_blp::encode::{encode_blp0, save_blp};
+use wow_blp::parser::load_blp;
+use wow_blp::path::make_mipmap_path;
 use wow_blp::parser::{parse_blp_with_externals, preloaded_mipmaps};
 use wow_blp::{BlpContent, BlpImage};
 use wverif_common::*;
@@ -80,7 +82,7 @@ fn level_sizes(b: &BlpImage) -> Vec<usize> {
     }
 }
 
-fn run_case(case: &str, c: &Value, rng: &mut Rng) -> Vec<Value> {
+fn run_case(case: &str, c: &Value, rng: &mut Rng, scratch: &Scratch) -> Vec<Value> {
     let mut evs = Vec::new();
     let (ver, enc, alpha) = (gs(c, "ver"), gs(c, "enc"), gi(c, "alpha"));
     let (w, h, mips, cls) = (gi(c, "w") as u32, gi(c, "h") as u32, gb(c, "mips"), gs(c, "img"));
@@ -99,12 +101,13 @@ fn run_case(case: &str, c: &Value, rng: &mut Rng) -> Vec<Value> {
     evs.push(json!({"ev":"Convert","case":case,"res":cres,"nimg":lens.len(),"stok":dtok(&blp),"lens":lens}));
     let (eres, enc_out) = class(guarded(|| encode_blp0(&blp)));
     let Some(out) = enc_out else {
-        evs.push(json!({"ev":"Encode","case":case,"res":eres,"len":0,"tok":"-","ext":[]}));
+        evs.push(json!({"ev":"Encode","case":case,"res":eres,"len":0,"tok":"-","ext":[],"exttoks":[]}));
         return evs;
     };
     let bytes = out.blp_bytes;
     let ext: Vec<usize> = out.blp_mipmaps.iter().map(|m| m.len()).collect();
-    evs.push(json!({"ev":"Encode","case":case,"res":eres,"len":bytes.len(),"tok":tok(&bytes),"ext":ext}));
+    let exttoks: Vec<String> = out.blp_mipmaps.iter().map(|m| tok(m)).collect();
+    evs.push(json!({"ev":"Encode","case":case,"res":eres,"len":bytes.len(),"tok":tok(&bytes),"ext":ext,"exttoks":exttoks}));
     // header fields and locator, read from the produced bytes at the positions the specification gave
     let mut offs = Vec::new();
     let mut sizes = Vec::new();
@@ -225,6 +228,34 @@ fn run_case(case: &str, c: &Value, rng: &mut Rng) -> Vec<Value> {
         let pj: Vec<Value> = pairs.iter().map(|(a, b)| json!([a, b])).collect();
         evs.push(json!({"ev":"Decode","case":case,"res":dres,"l0tok":l0,"srctok":src_tok,"palBad":pal_bad,"pairs":pj,"dw":dims.0,"dh":dims.1}));
     }
+    // ---- the file-path API: save_blp over a destination in each pre-state, then load_blp ----
+    for pre in ga(c, "pre") {
+        let pre = pre.as_str().unwrap();
+        let dir = scratch.file(&format!("{}_{}", case.replace(':', "_"), pre));
+        std::fs::create_dir_all(&dir).unwrap_or_else(|e| tool_error(&format!("mkdir {dir:?}: {e}")));
+        let path = dir.join("tex.blp");
+        if pre != "absent" {
+            // an earlier save of a smaller / larger texture of the same target at the same path
+            let (pw, ph) = if pre == "shorter" { ((w / 2).max(1), (h / 2).max(1)) } else { ((w * 2).min(1024), (h * 2).min(1024)) };
+            let pimg = DynamicImage::ImageRgba8(make_image(cls, pw, ph, rng));
+            let ptgt = target(ver, enc, alpha);
+            if let Outcome::Done(Ok(pb)) = guarded(move || image_to_blp(pimg, mips, ptgt, FilterType::Triangle)) {
+                let _ = guarded(|| save_blp(&pb, &path));
+            }
+        }
+        let (sres, _) = class(guarded(|| save_blp(&blp, &path)));
+        let main = std::fs::read(&path).unwrap_or_default();
+        let mut ftoks: Vec<String> = Vec::new();
+        for i in 0..out.blp_mipmaps.len() {
+            let fb = make_mipmap_path(&path, i).and_then(|p| std::fs::read(p).ok()).unwrap_or_default();
+            ftoks.push(tok(&fb));
+        }
+        let (lres, loaded) = class(guarded(|| load_blp(&path).map_err(|e| format!("{e:?}"))));
+        let lres = if lres.starts_with("err") { "err:Load".to_string() } else { lres };
+        let stok = loaded.map(|l| dtok(&l)).unwrap_or_else(|| "-".into());
+        evs.push(json!({"ev":"File","case":case,"pre":pre,"sres":sres,"mainLen":main.len(),"mainTok":tok(&main),"extToks":ftoks,"lres":lres,"stok":stok}));
+        let _ = std::fs::remove_dir_all(&dir);
+    }
     evs
 }
 
@@ -234,12 +265,13 @@ fn main() {
     let cases = read_cases(&a.cases);
     let trace = Trace::create(&a.trace);
     let seed = seed();
+    let scratch = Scratch::new("c16");
     let results: Vec<std::sync::Mutex<Vec<Value>>> = (0..cases.len()).map(|_| std::sync::Mutex::new(Vec::new())).collect();
     par_for(cases.len(), ncpu().min(8), |ci| {
         let c = &cases[ci];
         let case = format!("{ci}:blp");
         let mut rng = Rng::derive(seed, &case);
-        *results[ci].lock().unwrap() = run_case(&case, c, &mut rng);
+        *results[ci].lock().unwrap() = run_case(&case, c, &mut rng, &scratch);
     });
     for r in results {
         trace.block(r.into_inner().unwrap());
